@@ -14,3 +14,4 @@ INVARIANT RouteEndsAtPeer
 INVARIANT HostWellFormed
 INVARIANT UriComposition
 INVARIANT NotProxied
+INVARIANT EmitG
